@@ -247,6 +247,9 @@ func (v *V) callStatic(e *Env, fn *types.Func, recv *Val, call *ast.CallExpr) []
 	sig := fn.Type().(*types.Signature)
 	full := fn.FullName()
 	// known external models first
+	if r, ok := v.lockCall(e, fn, call); ok {
+		return r
+	}
 	if r, ok := v.knownExternal(e, fn, recv, call); ok {
 		return r
 	}
@@ -427,6 +430,9 @@ func (v *V) specTypeOf(e *Env, x ast.Expr) (types.Type, bool) {
 func (v *V) evalSpecBuiltin(e *Env, name string, call *ast.CallExpr) (Val, bool) {
 	d := v.d
 	args := call.Args
+	if r, ok := v.lockSpec(e, name, call); ok {
+		return r, true
+	}
 	switch name {
 	case "old":
 		if e.old == nil {
